@@ -175,15 +175,33 @@ def check(ctx):
         dom = cfg.dominators()
         cn = next(nd for nd in cfg.nodes.values() if any(x is c for x in node_calls(nd)))
         guarded = False
+        from ..paths import implied_atoms
         for d in dom[cn.id]:
             dn = cfg.nodes[d]
-            if dn.kind == "test":
-                t = ast.unparse(dn.ast)
-                if "not self._send_buffer" in t or "not self.data_stream" in t or "send_data_stream_queued" in t and "not self._send_buffer" in t:
-                    # the call must be on the true branch
-                    tb = [m for m, l in cfg.succ[d] if l == "T"]
-                    if tb and cn.id in cfg.reachable(tb[0]) and "not self._send_buffer" in t:
-                        guarded = True
+            if dn.kind != "test" or d == cn.id:
+                continue
+            # the branch of d on which the call lies: reachable from that successor without passing d again
+            lab = []
+            for m_, l_ in cfg.succ[d]:
+                if l_ not in ("T", "F"):
+                    continue
+                seen, st_ = {m_}, [m_]
+                while st_:
+                    x = st_.pop()
+                    if x == d:
+                        continue
+                    for y, _l in cfg.succ.get(x, []):
+                        if y not in seen:
+                            seen.add(y)
+                            st_.append(y)
+                if cn.id in seen:
+                    lab.append(l_)
+            if len(lab) != 1:
+                continue
+            facts = implied_atoms(dn.ast, lab[0] == "T")
+            if facts.get("self._send_buffer") is False or facts.get("len(self._send_buffer) == 0") is True \
+                    or facts.get("self._send_buffer == b''") is True:
+                guarded = True
         ctx.decide(guarded, "R-DOM/downgrade", fi.qual, fi.where(c), "downgrade to read-only is dominated by `nothing pending`",
                    f"{fi.qual.rsplit('.', 1)[-1]}() drops EVENT_WRITE and the attached stream (`{ast.unparse(c)}`) without testing that "
                    f"nothing is pending, while the sibling call site guards it with `not self._send_buffer`: a read event that lands "
